@@ -516,6 +516,70 @@ fn text(t: &mut Tasks) {
         }
         ctx.extra.insert("name_strings".into(), json!(cands.len()));
     });
+    // ---- the remaining printed forms: hex-printed keys, signatures and hashes, versions, rates --
+    t.add(move |ctx: &mut Ctx| {
+        fn hex_type<T: FromStr + std::fmt::Display + PartialEq>(ctx: &mut Ctx, name: &str, nbytes: usize, make: &dyn Fn(&[u8]) -> T) {
+            for fill in [0u8, 0xff, 0xa5] {
+                let bytes: Vec<u8> = (0..nbytes).map(|i| fill ^ (i as u8).wrapping_mul(29)).collect();
+                let v = make(&bytes);
+                let printed = v.to_string();
+                ctx.evals += 1;
+                if printed != hex::encode(&bytes) || T::from_str(&printed).ok().as_ref() != Some(&v) {
+                    ctx.violation("print-parse-round-trip", name, printed.len(), json!({"type": name, "printed": printed}), json!({}));
+                }
+                // one character fewer / more, a character outside the hex alphabet at every position
+                let chars: Vec<char> = printed.chars().collect();
+                let mut bad: Vec<String> = vec![printed[..printed.len() - 1].to_string(), format!("{printed}0"), format!("{printed}00"), printed[..printed.len() - 2].to_string(), String::new(), format!("0x{printed}"), format!(" {printed}")];
+                for i in 0..chars.len() {
+                    for c in ['g', ' ', 'é', '-'] {
+                        let mut x = chars.clone();
+                        x[i] = c;
+                        bad.push(x.into_iter().collect());
+                    }
+                }
+                for b in bad {
+                    ctx.evals += 1;
+                    if T::from_str(&b).is_ok() {
+                        ctx.violation("ill-formed-text-accepted", name, b.len(), json!({"type": name, "text": b}), json!({}));
+                    }
+                }
+            }
+            ctx.outcome("hex-printed type: round trip ok", 1);
+        }
+        hex_type::<cc::PublicKeyEd25519>(ctx, "PublicKeyEd25519", 32, &|b| cc::PublicKeyEd25519(b.try_into().unwrap()));
+        hex_type::<cc::PublicKeyEcdsaSecp256k1>(ctx, "PublicKeyEcdsaSecp256k1", 33, &|b| cc::PublicKeyEcdsaSecp256k1(b.try_into().unwrap()));
+        hex_type::<cc::SignatureEd25519>(ctx, "SignatureEd25519", 64, &|b| cc::SignatureEd25519(b.try_into().unwrap()));
+        hex_type::<cc::SignatureEcdsaSecp256k1>(ctx, "SignatureEcdsaSecp256k1", 64, &|b| cc::SignatureEcdsaSecp256k1(b.try_into().unwrap()));
+        hex_type::<ModuleReference>(ctx, "ModuleReference", 32, &|b| ModuleReference::from(<[u8; 32]>::try_from(b).unwrap()));
+        // addresses of either kind
+        for a in [Address::Account(AccountAddress([3; 32])), Address::Contract(ContractAddress::new(0, 0)), Address::Contract(ContractAddress::new(u64::MAX, u64::MAX))] {
+            ctx.evals += 1;
+            let printed = a.to_string();
+            if Address::from_str(&printed).ok() != Some(a) {
+                ctx.violation("print-parse-round-trip", "Address", printed.len(), json!({"type": "Address", "printed": printed}), json!({}));
+            }
+        }
+        for v in [cc::WasmVersion::V0, cc::WasmVersion::V1] {
+            ctx.evals += 1;
+            if cc::WasmVersion::from_str(&v.to_string()).ok() != Some(v) {
+                ctx.violation("print-parse-round-trip", "WasmVersion", 2, json!({"type": "WasmVersion", "printed": v.to_string()}), json!({}));
+            }
+        }
+        for b in ["", "V", "V2", "0", "1", "V00", " V0", "V0 "] {
+            ctx.evals += 1;
+            if cc::WasmVersion::from_str(b).is_ok() {
+                ctx.violation("ill-formed-text-accepted", "WasmVersion", b.len(), json!({"type": "WasmVersion", "text": b}), json!({}));
+            }
+        }
+        // exchange rates from decimal strings: value = numerator / denominator in lowest terms
+        for (text, want) in [("1", Some((1u64, 1u64))), ("0.5", Some((1, 2))), ("2.50", Some((5, 2))), ("0.000001", Some((1, 1_000_000))), ("18446744073709551615", Some((u64::MAX, 1))), ("18446744073709551616", None), ("0", None), ("0.0", None), ("-1", None), ("", None), ("1/2", None), ("0.0000000000000000001", Some((1, 10_000_000_000_000_000_000))), ("0.00000000000000000001", None)] {
+            ctx.evals += 1;
+            let got = ExchangeRate::from_str(text).ok().map(|r| (r.numerator(), r.denominator()));
+            if got != want {
+                ctx.violation("exchange-rate-text-differs", "ExchangeRate", text.len(), json!({"type": "ExchangeRate", "text": text}), json!({"parsed": format!("{got:?}"), "expected": format!("{want:?}")}));
+            }
+        }
+    });
     // ---- checked arithmetic ------------------------------------------------------------------
     t.add(|ctx: &mut Ctx| {
         let vals = [0u64, 1, 2, u64::MAX / 2, u64::MAX / 2 + 1, u64::MAX - 1, u64::MAX];
